@@ -136,14 +136,23 @@ def sym_ordereddict(*a, **kw):
         return ShellMutableMap(SimpleDict(list(base.items())))
 
 
-def _sym_str_repr(self):
+_orig_repr = _bl._repr
+
+
+def sym_repr(obj):
     """repr() of a symbolic str without realising it.
 
     Exact when no character needs escaping; otherwise the text is quoted *without* escapes.  repr()
     of symbolic text only ever reaches log and exception messages in asyncfix (no oracle inspects
     message texts), and realising here would enumerate every rejected value of a validator.
+    Only the repr() builtin / f-string !r / %r paths are modelled; a C-level repr (e.g. of an
+    exception's args) still uses CrossHair's realising __repr__.
     """
-    return "'" + self + "'"
+    with NoTracing():
+        is_sym_str = isinstance(obj, _bl.AnySymbolicStr)
+    if is_sym_str:
+        return "'" + obj + "'"
+    return _orig_repr(obj)
 
 
 def _ignorecase_mask(cp):
@@ -177,7 +186,7 @@ def sym_str(*a, **kw):
 def install():
     core._PATCH_REGISTRATIONS[str] = sym_str
     _relib.unicode_ignorecase_mask = _ignorecase_mask
-    _bl.AnySymbolicStr.__repr__ = _sym_str_repr
+    core._PATCH_REGISTRATIONS[repr] = sym_repr
     core._PATCH_REGISTRATIONS[str.__mod__] = sym_percent
     core._PATCH_REGISTRATIONS[format] = sym_format
     core._PATCH_REGISTRATIONS[int] = sym_int
